@@ -121,6 +121,7 @@ func firstDiff(a, b []byte) int {
 func logMode(seed uint64, rounds int) {
 	rng := hutil.NewRng(seed)
 	storePaths(rng.Fork())
+	canceledLogsRound(0)
 	for round := 0; round < rounds; round++ {
 		r := rng.Fork()
 		big := round%4 == 3
@@ -346,6 +347,63 @@ func logMode(seed uint64, rounds int) {
 		}()))
 		a.Stop()
 	}
+}
+
+// canceledLogsRound: a task that has already written output is canceled; what it wrote is in the store, and the log API must return
+// exactly that (the task ends with status "canceled" like a task that never ran, but it did run)
+func canceledLogsRound(round int) {
+	defs := map[string]PipeDef{"c": {Concurrency: 1, Tasks: map[string]TaskDef{
+		"w": {Script: []string{"printf 'before-cancel-{{.s}}\\n'", "printf 'err-before-{{.s}}\\n' >&2", "sleep 30"}}}}}
+	a, err := startApp(defs)
+	if err != nil {
+		emit(map[string]interface{}{"kind": "error", "round": round, "what": err.Error()})
+		return
+	}
+	defer a.Stop()
+	rec := map[string]interface{}{"kind": "canceled_logs", "round": round, "ok": false}
+	defer func() { emit(rec) }()
+	id, st, msg := a.Schedule("c", map[string]interface{}{"s": 7000 + round})
+	if st != 202 {
+		rec["what"] = fmt.Sprintf("schedule: %d %s", st, msg)
+		return
+	}
+	wantOut, wantErr := fmt.Sprintf("before-cancel-%d\n", 7000+round), fmt.Sprintf("err-before-%d\n", 7000+round)
+	deadline := time.Now().Add(10 * time.Second)
+	for time.Now().Before(deadline) {
+		o, _ := a.LogFile(id, "w", "stdout")
+		e, _ := a.LogFile(id, "w", "stderr")
+		if string(o) == wantOut && string(e) == wantErr {
+			break
+		}
+		time.Sleep(10 * time.Millisecond)
+	}
+	a.Cancel(id)
+	res, done := a.WaitDone(id, 20*time.Second)
+	if !done {
+		rec["what"] = "the canceled job did not finish"
+		return
+	}
+	status := ""
+	if res != nil && len(res.Tasks) > 0 {
+		status = res.Tasks[0].Status
+	}
+	o, _ := a.LogFile(id, "w", "stdout")
+	e, _ := a.LogFile(id, "w", "stderr")
+	logs, lst := a.Logs(id, "w")
+	rec["task_status"], rec["api_status"], rec["file_stdout"], rec["file_stderr"] = status, lst, string(o), string(e)
+	if string(o) != wantOut || string(e) != wantErr {
+		rec["what"] = fmt.Sprintf("the store holds stdout %q stderr %q of the canceled task, it wrote %q and %q", string(o), string(e), wantOut, wantErr)
+		return
+	}
+	if logs == nil || logs.Stdout != wantOut || logs.Stderr != wantErr {
+		got := "<no answer>"
+		if logs != nil {
+			got = fmt.Sprintf("stdout %q stderr %q", logs.Stdout, logs.Stderr)
+		}
+		rec["what"] = fmt.Sprintf("the log API (status %d) returns %s for a task that was canceled after it had written stdout %q stderr %q (task status %q)", lst, got, wantOut, wantErr, status)
+		return
+	}
+	rec["ok"] = true
 }
 
 func keys(m map[string]bool) []string {
